@@ -334,6 +334,9 @@ def check_aliases(ctx, rels):
             for node, t in class_level_stores(f.node, (f.cls.name,) if f.cls is not None else ()):
                 ctx.bad("instance-value-on-class:%s" % q.split(".", 1)[-1], "%s:%d" % (rel, node.lineno),
                         "%s stores a value computed from the instance on the class (`%s = ...`): all instances share the slot, so every other instance (another network, another key) finds the value of the one that filled it first" % (q, t))
+            for node, t in tests_after_replace(f.node):
+                ctx.bad("test-after-replace:%s" % q.split(".", 1)[-1], "%s:%d" % (rel, node.lineno),
+                        "%s tests `%s` on a text from which that very string has just been replaced away: the test is always False, so what depends on it (restoring the original line ends, say) never happens" % (q, t))
             for node, t in charset_strips(f.node):
                 ctx.bad("strip-is-a-character-set:%s" % q.split(".", 1)[-1], "%s:%d" % (rel, node.lineno),
                         "%s calls `%s`: the argument of strip / rstrip / lstrip is a SET of characters, not a suffix, so characters of the text itself that happen to be in the set are removed as well" % (q, t))
@@ -575,4 +578,30 @@ def cached_methods(program, cls):
             mro = program.mro(cls)
             value_eq = any("__eq__" in k.methods for k in mro) or any(b.split("[")[0].split(".")[-1] in ("tuple", "str", "int", "bytes", "frozenset", "Tuple", "NamedTuple") for k in mro for b in k.ext_bases)
         out.append((n, value_eq))
+    return out
+
+
+def tests_after_replace(fn):
+    """[(node, text)]: `S in T` where T is (a name bound once to) `X.replace(S, R)` and S does not occur in R: the test is made on the
+    text from which S has just been removed, so it is always False (the flag it sets never fires)"""
+    out = []
+    defs = {}
+    for n in ast.walk(fn):
+        if isinstance(n, ast.Assign) and len(n.targets) == 1 and isinstance(n.targets[0], ast.Name):
+            defs.setdefault(n.targets[0].id, []).append(n.value)
+    for n in ast.walk(fn):
+        if isinstance(n, ast.Compare) and len(n.ops) == 1 and isinstance(n.ops[0], (ast.In, ast.NotIn)) and isinstance(n.left, ast.Constant) and isinstance(n.left.value, (str, bytes)):
+            t = n.comparators[0]
+            if isinstance(t, ast.Name) and len(defs.get(t.id, [])) == 1:
+                d_ = defs[t.id][0]
+                params_ = {a.arg for a in fn.args.args + fn.args.kwonlyargs + fn.args.posonlyargs} if isinstance(fn, (ast.FunctionDef, ast.AsyncFunctionDef)) else set()
+                # the binding must come BEFORE the test and be unconditional (a parameter re-bound later, or under an `if`, still
+                # holds the original text where it is tested)
+                if t.id in params_ or getattr(d_, "lineno", 10 ** 9) >= n.lineno or not any(isinstance(st, ast.Assign) and st.value is d_ for st in fn.body):
+                    continue
+                t = d_
+            if isinstance(t, ast.Call) and isinstance(t.func, ast.Attribute) and t.func.attr == "replace" and len(t.args) >= 2 and all(isinstance(a, ast.Constant) for a in t.args[:2]):
+                s_, r_ = t.args[0].value, t.args[1].value
+                if s_ == n.left.value and type(s_) is type(r_) and s_ not in r_:
+                    out.append((n, ast.unparse(n)[:60]))
     return out
